@@ -27,7 +27,12 @@ def dataflow_check(run, pkg):
         def get_env(self):
             return pkg.mod("icg_gym").ICG_Gym.__new__(pkg.mod("icg_gym").ICG_Gym)
 
+    class _Model:
+        def predict(self, *a, **k):
+            return 0, None
+    Inst.model = _Model()
     for modname, fname, callee, ret in (
+            ("run.eval", "eval_func", "evaluate", "pair"),
             ("run.solve", "solve_func", "evaluate", "pair"),
             ("run.greedy", "greedy_func", "get_greedy_rewards", "greedy"),
             ("run.best_states", "best_states_func", "get_best_exploitability", "best")):
@@ -45,7 +50,8 @@ def dataflow_check(run, pkg):
         old_callee, old_save = getattr(m, callee), m.save
         setattr(m, callee, fake)
         m.save = lambda d, n, out: saved.update(dir=d, name=n, out=out)
-        args = Namespace(solver="largest", solve_repetitions=2, sampling_repetitions=2, eval_repetitions=1, func=None)
+        args = Namespace(solver="largest", solve_repetitions=2, sampling_repetitions=2, eval_repetitions=1, func=None,
+                         eval_nondeterministic=False)
         try:
             getattr(m, fname)(Inst(), args)
         finally:
@@ -70,7 +76,7 @@ def dataflow_check(run, pkg):
             run._report_violation(f"dataflow/{fname}", SS.sc_output_roundtrip, {}, {"command": fname}, False,
                                   detail={"kind": "the matrices returned by the evaluation are not the ones handed to save()"})
     run.exhaustive.append({"label": "command data flow (stubs with tagged matrices)", "rows": rows, "exhaustive": True,
-                           "space": "solve, greedy, best_states"})
+                           "space": "eval, solve, greedy, best_states"})
 
 
 def native_roundtrip(run, count):
